@@ -800,7 +800,7 @@ def signbytes_check(tier, seed):
     try:
         vlib.copy_spec(work)
         harness = vlib.build_harness()
-        consts = configs.mk(Accts=S(['a1', 'a2']) if q else S(['a1', 'a2', 'a3']), Topics=S(['t1', 't2']) if q else S(['t1', 't2', 'tc']), Descs=S(['', 'x', ' x']), Mons=S(['', 'm', 'm ']), RecKeys=S(['', 'k1']), RecVals=S(['', 'v1', 'v2']) if q else S(['', 'v1', 'v2', 'v1\\t']),
+        consts = configs.mk(Accts=S(['a1', 'a2']) if q else S(['a1', 'a2', 'a3']), Topics=S(['t1', 't2']) if q else S(['t1', 't2', 'tc']), Descs=S(['', 'x', ' x', 'L300']), Mons=S(['', 'm', 'm ']), RecKeys=S(['', 'k1']), RecVals=S(['', 'v1', 'v2']) if q else S(['', 'v1', 'v2', 'v1\\t', 'L4000']),
                             FeePayers=S(['none', 'a1', 'a2']), Dids=S(['d1', 'dc']), DocNames=S(['A1', 'A2', 'R1', 'R2']) if q else S(['A1', 'A2', 'B12', 'C1', 'D2', 'E1', 'U1', 'R1', 'R2', 'F12']), Keys=S(['k1']) if q else S(['k1', 'k2']),
                             VmNames=S(['v1']), Seqs=S([0]) if q else S([0, 1]), DenomIds=S(['n1', 'n2']), TokenIds=S(['i1', 'i2']), DNames=S(['x', 'y']),
                             Kinds=configs.AOL_KINDS | configs.DID_KINDS | configs.PN_KINDS)
